@@ -12,7 +12,7 @@ From P2 Require Import Base.Prelude Heap.ListHeap Heap.ListHeapProofs Heap.FuncS
 From P2 Require Import Sem.Num Sem.Syntax Sem.Ops Sem.Lib Sem.Ref Sem.Gen Sem.Sim Heap.FuncStackProofs.
 From P2 Require Lib.Stream Lib.Iterate Lib.IterateProofs.
 From P2 Require Import Heap.MapHeap Heap.MapHeapProofs Heap.MapState Heap.MapStateProofs.
-From P2 Require Import Heap.MixState Heap.MixStateProofs.
+From P2 Require Import Heap.MixState Heap.MixStateProofs Heap.MixSpecProofs.
 
 (* an evaluation is a sequence of heap steps whose outcome is determined by (F, args, j) and the CONTENT of the
    constants - never by their representation (itemsPresent / len / cap / which array): started in ANY heap h2
@@ -93,6 +93,15 @@ Theorem C10_mixed_outcome_depends_on_content_only : forall cp h0 mh0 F args j h 
   inv h0 -> mwf mh0 -> xfunc_ok h0 mh0 F -> good h0 h -> mgood mh0 mh ->
   snd (xeval_fn cp h mh F args j) = xfunc_denotes h0 mh0 F args j.
 Proof. exact mixed_outcome_content_only_lemma. Qed.
+
+(* ... and for well-typed programs of the mixed fragment the outcome is the one the SPECIFICATION assigns to the PROGRAM
+   TEXT (sp_xprog: map entries and lists of lists hold content; no heap, no handle, no history): Generate(p) at any
+   point of any history, then any further history on both heaps, then Eval(args) consuming j elements *)
+Theorem C10_mixed_generated_function_meets_spec : forall cp before p hist args j o,
+  xprog_wt p = true -> sp_xprog p args j = Some o ->
+  let g := xrun_hist cp new_xgenerator before in
+  xeval_after cp (xrun_event cp g (XEGen p)) hist (length (xg_funcs g)) args j = o.
+Proof. exact mixed_generated_meets_spec_reachable_lemma. Qed.
 
 (* traversal state is per ITERATION, not per list value (Lib/Stream.v pipelines: map, accept, combine, number,
    iir, compact, skip, top over numbers / literals / +; consumers first, single, size, present, indexWhere, ~,
@@ -183,7 +192,7 @@ Example C10_mixed_nonvacuous :
   let q := mkXP [DL (LLit [4]%Z)] [] [XMLit [(kn, XVInt (SLit 1))]] [XBList (XMPut (XMConst 0) ka (XVInt (SArg 0))) kl] (BZ (ZSize (LConst 1))) in
   let g1 := xrun_event cp new_xgenerator (XEGen p) in
   let g2 := xrun_event cp g1 (XEEval 0 [5; 7]%Z 0) in
-  xgstate_ok g1 /\ length (xg_funcs g1) = 1 /\
+  xgstate_ok g1 /\ length (xg_funcs g1) = 1 /\ xprog_wt p = true /\ xprog_wt q = true /\
   repr (xg_heap g1) 1 = (true, 3, 6) /\ repr (xg_heap g2) 1 = (true, 3, 3) /\
   length (mh_arrs (xg_mh g1)) = 1 /\ length (mh_arrs (xg_mh g2)) = 2 /\
   sp_xprog p [5; 7]%Z 0 = Some (FuncState.OInt 47) /\
@@ -206,7 +215,7 @@ Example C10_list_of_lists_nonvacuous :
                 [[1; 3]] [] [XBIndex 0 (SArg 0)] (BL (LAppend (LConst 4) (ZS (SArg 1)))) in
   let g1 := xrun_event cp new_xgenerator (XEGen p) in
   let g2 := xrun_hist cp g1 [XEEval 0 [1; 9]%Z 9; XEEval 0 [0; 8]%Z 0] in
-  xgstate_ok g1 /\ length (xg_funcs g1) = 1 /\
+  xgstate_ok g1 /\ length (xg_funcs g1) = 1 /\ xprog_wt p = true /\
   icontent (xg_heap g1) 4 = [1; 3]%Z /\ icontent (xg_heap g2) 4 = [1; 3]%Z /\
   repr (xg_heap g1) 1 = (false, 0, 0) /\ repr (xg_heap g2) 1 = (true, 2, 2) /\
   repr (xg_heap g1) 3 = (true, 2, 4) /\ repr (xg_heap g2) 3 = (true, 2, 2) /\
@@ -235,3 +244,4 @@ Print Assumptions C10_stack_residue_irrelevant.
 Print Assumptions C10_mixed_eval_history_independent.
 Print Assumptions C10_mixed_reachable_states_ok.
 Print Assumptions C10_mixed_outcome_depends_on_content_only.
+Print Assumptions C10_mixed_generated_function_meets_spec.
